@@ -3,7 +3,7 @@
    *IDN? and disconnects on any number of connections; d over every directory content. *)
 From Coq Require Import List Arith ZArith Bool NArith Lia.
 Import ListNotations.
-Require Import FV.Gen.C20 FV.C20.Model FV.C20.Lemmas FV.C20.LemmasRot.
+Require Import FV.Gen.C20 FV.C20.Model FV.C20.ConcModel FV.C20.Lemmas FV.C20.LemmasRot FV.C20.LemmasConc FV.C20.LemmasProg.
 
 (* obligations on the facts regenerated from /repo (Gen/C20.v) *)
 Theorem C20_source_facts :
@@ -11,7 +11,8 @@ Theorem C20_source_facts :
   set_conn_level_shape = true /\ module_sets_own_name = true /\ set_all_iterates_all_modules = true /\
   handle_logging_shape = true /\ reset_sets_all_off = true /\ remove_calls_reset = true /\ ident_calls_reset = true /\
   send_log_msg_shape = true /\ rollover_guard_max_days = true /\ rollover_lists_own_logs = true /\
-  rollover_removes_old_earlier = true.
+  rollover_removes_old_earlier = true /\
+  handle_request_holds_lock = true /\ close_path_takes_no_lock = true /\ subscriptions_touched_in_three_places = true.
 Proof. repeat split; reflexivity. Qed.
 
 (* Routing, full strength and exact: after ANY history, the messages connection c gets for a record of module m
@@ -65,6 +66,79 @@ Proof.
   - intros e H. eapply invalid_level_no_effect; eauto.
   - intros s E A M. subst. apply unknown_module_no_effect; auto.
 Qed.
+
+(* ------------------------------------------------------------------ concurrent layer (ConcModel.v).
+   progs: ANY programs of ANY number of threads (atomic steps: lock acquire / release, the three in-place dict operations
+   setdefault / item assignment / pop, reader steps of handle); sched: ANY schedule (list of thread numbers; a step of a
+   finished thread or of one waiting for the lock is void). *)
+
+(* Linearizability: because every mutation of a module's subscription dict is one atomic in-place operation on one key,
+   after any schedule there is an order lin of the executed steps which (1) contains for every thread exactly the executed
+   prefix of its program, in program order, (2) produces the table when its table operations are applied one after the
+   other, and (3) the entry of every key (module, connection) is the result of the operations on that key alone, in that
+   order -- independent of every operation on another key. *)
+Theorem C20_routing_linearizable : forall progs t0 sched,
+  let st := crun (init progs t0) sched in
+  exists lin : list (nat * aop),
+    (forall i, by_thread i lin ++ nth i (c_progs st) [] = nth i progs []) /\
+    c_table st = apply_all (tops (map snd lin)) t0 /\
+    (forall m c, look (c_table st) m c =
+                 key_run m c (filter (touches m c) (tops (map snd lin))) (look t0 m c)).
+Proof. intros; apply routing_linearizable. Qed.
+
+(* hence: an entry written by one thread only is, once all threads have finished, what that thread's program alone leaves
+   there when run sequentially -- for every schedule and whatever the other threads do *)
+Theorem C20_entry_written_by_one_thread : forall progs t0 sched i m c,
+  (forall j o, j <> i -> In o (tops (nth j progs [])) -> touches m c o = false) ->
+  all_done (crun (init progs t0) sched) = true ->
+  look (c_table (crun (init progs t0) sched)) m c = look (apply_all (tops (nth i progs [])) t0) m c.
+Proof. intros; apply owner_determines; assumption. Qed.
+
+(* The property after a concurrent phase.  pre: the sequential history before the threads start; thread i serves connection
+   c with the history ops (conn_prog: requests under the dispatcher lock, remove_connection without it), no other thread
+   writes an entry of c.  Once all threads have finished, what c receives for a record (m, lv) is exactly what the
+   specification demands for c's own history pre ++ ops: one message iff its latest choice for m is a level <= lv; a closed
+   or re-identified connection receives nothing. *)
+Theorem C20_concurrent_routing : forall mods pre progs sched i c ops m lv py,
+  nth i progs [] = conn_prog mods ops ->
+  (forall j o m, j <> i -> In o (tops (nth j progs [])) -> touches m c o = false) ->
+  all_done (crun (init progs (run mods pre)) sched) = true ->
+  deliv_to c (handle (c_table (crun (init progs (run mods pre)) sched)) m lv py) =
+  expected (spec_choice mods (rev (pre ++ ops)) m c) m lv py c.
+Proof. intros; apply concurrent_routing with (i := i); assumption. Qed.
+
+(* the program of a connection thread writes entries of its own connection only (so that the hypothesis above holds for
+   every set of connection threads serving different connections, and for module threads, which write nothing) *)
+Theorem C20_connection_thread_writes_own_entries : forall mods c ops o m' c',
+  (forall op, In op ops -> by_conn c op = true) ->
+  In o (tops (conn_prog mods ops)) -> c' <> c -> touches m' c' o = false.
+Proof. intros; eapply conn_prog_touch; eauto. Qed.
+
+(* Closing X and enabling Y on the same module commute: in ANY interleaving (with any other threads that do not write
+   entries of X or Y) Y ends up subscribed with the level it asked for and X is removed from every module. *)
+Theorem C20_close_and_enable_commute : forall mods pre others sched X Y m d lv,
+  X <> Y -> mem_name m mods = true -> check_level d = inl lv -> lv <> OFF ->
+  (forall p o m', In p others -> In o (tops p) -> touches m' X o = false /\ touches m' Y o = false) ->
+  let progs := conn_prog mods [ODisconnect X] :: conn_prog mods [OLogging Y (Some m) d] :: others in
+  let st := crun (init progs (run mods pre)) sched in
+  all_done st = true ->
+  chosen (c_table st) m Y = Some lv /\ forall m', chosen (c_table st) m' X = None.
+Proof. intros; apply close_and_enable; assumption. Qed.
+
+(* the hypothesis "all threads have finished" is satisfiable: connection threads (any histories) together with any threads
+   using the lock in a balanced way (module threads never touch it) can always be scheduled to completion -- the lock cannot
+   block for ever *)
+Theorem C20_complete_schedule_exists : forall mods (hist : list (list op)) (others : list (list aop)) t0,
+  Forall (fun p => balanced p = true) others ->
+  exists sched, all_done (crun (init (map (conn_prog mods) hist ++ others) t0) sched) = true.
+Proof. intros; apply conn_threads_complete; assumption. Qed.
+
+(* a consistent reader step (one iteration of the loop in handle while other threads run) sends a message only to a
+   connection that is subscribed at that moment with a level at or below the record's level, under the right name *)
+Theorem C20_concurrent_delivery_sound : forall t m lv py c lev nm,
+  reader_ok t (ANext m lv py c lev (Some nm)) = true ->
+  chosen t m c = Some lev /\ (lev <= lv)%Z /\ nm = record_name lv py.
+Proof. intros; apply reader_sound; assumption. Qed.
 
 (* Rotation.  d ranges over every directory: any set of dated log files of the handler (earlier, same day, dated later), foreign
    files, sub-directories, links; "earlier" = own log file (regular file named <root>-*.log) whose name is below the name of the
@@ -135,6 +209,34 @@ Example C20_demo :
   [(0, mA, s_info); (1, mB, s_warning); (1, mA, s_error); (1, mB, s_critical)].
 Proof. vm_compute. reflexivity. Qed.
 
+(* non-vacuity of the concurrent theorems: connection 0 (subscribed to mA) closes while connection 1 enables mA; an
+   interleaved schedule in which the close writes while the request holds the lock runs to completion *)
+Definition demo_progs : list (list aop) :=
+  [conn_prog [mA] [ODisconnect 0]; conn_prog [mA] [OLogging 1 (Some mA) (LStr s_info)]].
+Example C20_demo_concurrent :
+  let st := crun (init demo_progs (run [mA] [OLogging 0 (Some mA) (LStr s_debug)])) [1; 1; 0; 1; 0; 1] in
+  all_done st = true /\ c_ok st = true /\ c_table st = [(mA, [(1, 20%Z)])].
+Proof. vm_compute. auto. Qed.
+
+(* Why `set_conn_level_shape` is an obligation: a copy-on-write set_conn_level (copy the module's dict, change the copy,
+   store it back: three steps, ConcModel.wstep) is equivalent single-threaded but loses updates.  Same scenario: run one
+   after the other the two threads give [(1, 20)]; there is an interleaving after which connection 1, whose request was
+   answered, is not subscribed, and one after which the closed connection 0 still is. *)
+Definition cow_progs : list (list wop) := [cow_set_level 0 OFF mA; cow_set_level 1 20%Z mA].
+Theorem C20_copy_on_write_loses_update :
+  let t0 := [(mA, [(0, 10%Z)])] in
+  w_table (wrun (winit cow_progs t0) [0; 0; 0; 1; 1; 1]) = [(mA, [(1, 20%Z)])] /\
+  w_table (wrun (winit cow_progs t0) [1; 1; 1; 0; 0; 0]) = [(mA, [(1, 20%Z)])] /\
+  (exists sched, let st := wrun (winit cow_progs t0) sched in
+                 w_all_done st = true /\ look (w_table st) mA 1 = None) /\
+  (exists sched, let st := wrun (winit cow_progs t0) sched in
+                 w_all_done st = true /\ look (w_table st) mA 0 = Some 10%Z).
+Proof.
+  split; [vm_compute; reflexivity|]. split; [vm_compute; reflexivity|]. split.
+  - exists [0; 1; 1; 1; 0; 0]. vm_compute. auto.
+  - exists [1; 0; 0; 0; 1; 1]. vm_compute. auto.
+Qed.
+
 Definition frappy : name := [102; 114; 97; 112; 112; 121]%N.
 Definition date_n (n : N) : name := [50; 48; 50; 52; 45; 48; 49; 45; 48; 48 + n]%N.   (* 2024-01-0n *)
 Definition dated (n : N) : entry := {| e_name := log_name frappy (date_n n); e_file := true |}.
@@ -156,6 +258,14 @@ Print Assumptions C20_stop.
 Print Assumptions C20_stop_ways.
 Print Assumptions C20_others_unaffected.
 Print Assumptions C20_rejected_request_no_effect.
+Print Assumptions C20_routing_linearizable.
+Print Assumptions C20_entry_written_by_one_thread.
+Print Assumptions C20_concurrent_routing.
+Print Assumptions C20_connection_thread_writes_own_entries.
+Print Assumptions C20_close_and_enable_commute.
+Print Assumptions C20_complete_schedule_exists.
+Print Assumptions C20_concurrent_delivery_sound.
+Print Assumptions C20_copy_on_write_loses_update.
 Print Assumptions C20_rollover_frame.
 Print Assumptions C20_only_earlier_own_logs_removed.
 Print Assumptions C20_retention_zero_keeps_all.
